@@ -97,6 +97,9 @@ pub enum Op {
     Burst { n: u32, w: u32, gets: bool },
     /// read `entry_count()` / `weighted_size()` (observations only)
     Counters,
+    /// get / contains_key of one of the keys inserted by earlier bursts
+    GetFresh { sel: u16 },
+    ContainsFresh { sel: u16 },
 }
 
 #[derive(Clone, Debug, PartialEq, Eq, Hash, Serialize, Deserialize)]
